@@ -2089,10 +2089,13 @@ def run_ops(sc, ops, acc, prop):
 
 
 def run_case(case, acc, prop, active=None):
-    for key, fn in (('aborted_update', aborted_update_case), ('late_quote', late_quote_case), ('negative_mark', negative_mark_case)):
+    for key, fn in (('aborted_update', aborted_update_case), ('late_quote', late_quote_case), ('negative_mark', negative_mark_case),
+                    ('real_handler', real_handler_case)):
         if key in case:
             try:
-                if key == 'aborted_update':
+                if key == 'real_handler':
+                    fn(case[key], acc, case.get('prop', prop))
+                elif key == 'aborted_update':
                     fn(case[key], acc, prop=case.get('prop', 'C05'))
                 else:
                     fn(case[key], acc)
@@ -2310,6 +2313,95 @@ def late_quote_case(sp, acc):
     acc.count('C04:orders_waiting_for_a_first_quote')
 
 
+def real_handler_script(rng):
+    """Orders filled through the REAL data handler over CSV files: the handler was given a universe (what the strategy looks
+    at) that does not cover everything the broker trades, and possibly two sources that both price an asset (C04 / C05)."""
+    day = rng.choice([1, 2, 3, 4])
+    return {'day': '2021-03-0%d' % day, 'price': rand_price(rng), 'price2': rand_price(rng),
+            'universe': rng.choice(['none', 'narrow', 'narrow', 'late_entry', 'late_entry', 'full']),
+            'sources': rng.choice([1, 2, 2]), 'second_has_asset': rng.random() < 0.7,
+            'submit_before_open': rng.random() < 0.5, 'tod': rng.choice(['14:30', '15:00', '18:45', '20:59']),
+            'qx': rng.choice([1, -1]) * rng.randint(1, 400), 'qy': rng.choice([1, -1]) * rng.randint(1, 400),
+            'y_first': rng.random() < 0.5, 'rates': [rng.choice([0.0, 0.001, 0.0057]), rng.choice([0.0, 0.005])]}
+
+
+def real_handler_case(sp, acc, prop):
+    import shutil
+    import tempfile
+    from qstrader.asset.universe.static import StaticUniverse
+    from qstrader.asset.universe.dynamic import DynamicUniverse
+    from qstrader.broker.simulated_broker import SimulatedBroker
+    from qstrader.exchange.simulated_exchange import SimulatedExchange
+    from qstrader.broker.fee_model.percent_fee_model import PercentFeeModel
+    from qstrader.data.backtest_data_handler import BacktestDataHandler
+    from qstrader.data.daily_bar_csv import CSVDailyBarDataSource
+    from qstrader.execution.order import Order
+    from qsmon import datawl
+    days = ['2021-03-01', '2021-03-02', '2021-03-03', '2021-03-04', '2021-03-05']
+    d1, d2 = tempfile.mkdtemp(prefix='qsmon-rh-'), tempfile.mkdtemp(prefix='qsmon-rh-')
+    try:
+        p, p2 = sp['price'], sp['price2']
+        bars = lambda base: [{'date': d, 'open': base + i, 'close': base + i + 0.5, 'adj': base + i + 0.5} for i, d in enumerate(days)]  # noqa
+        datawl.write_csv(os.path.join(d1, 'XXX.csv'), bars(p), list(range(len(days))))
+        datawl.write_csv(os.path.join(d1, 'YYY.csv'), bars(p + 17.0), list(range(len(days))))
+        datawl.write_csv(os.path.join(d2, ('YYY' if sp['second_has_asset'] else 'ZZZ') + '.csv'), bars(p2), list(range(len(days))))
+        sources = [CSVDailyBarDataSource(d1, None, adjust_prices=False)]
+        if sp['sources'] == 2:
+            sources.append(CSVDailyBarDataSource(d2, None, adjust_prices=False))
+        early = pd.Timestamp('2020-01-01 00:00:00', tz='UTC')
+        uni = {'none': None, 'full': StaticUniverse(['EQ:XXX', 'EQ:YYY']), 'narrow': StaticUniverse(['EQ:XXX']),
+               'late_entry': DynamicUniverse({'EQ:XXX': early, 'EQ:YYY': pd.Timestamp('2021-06-01 00:00:00', tz='UTC')})}[sp['universe']]
+        handler = BacktestDataHandler(uni, data_sources=sources)
+        fill_t = ts(sp['day'] + ' ' + sp['tod'] + ':00')
+        t0 = ts(sp['day'] + ' 10:00:00') if sp['submit_before_open'] else fill_t
+        b = SimulatedBroker(t0, SimulatedExchange(t0), handler, initial_funds=1e7, fee_model=PercentFeeModel(*sp['rates']))
+        b.create_portfolio('p')
+        b.subscribe_funds_to_portfolio('p', 5e6)
+        orders = [('EQ:XXX', sp['qx']), ('EQ:YYY', sp['qy'])]
+        if sp['y_first']:
+            orders.reverse()
+        for a, q in orders:
+            b.submit_order('p', Order(t0, a, q))
+        if sp['submit_before_open']:
+            b.update(t0)
+            if b.get_portfolio_as_dict('p') or b.open_orders['p'].qsize() != 2:
+                raise Violation('C04', 'filled-outside-hours', 'orders submitted at %s were touched by the update at that time, '
+                                'outside exchange hours' % t0, sp)
+        cash0 = b.get_portfolio_cash_balance('p')
+        try:
+            b.update(fill_t)
+        except Exception as e:
+            raise Violation(prop, 'fill-update-raised/%s' % type(e).__name__, 'both assets have bars in the CSV directory the handler '
+                            'reads (universe given to the handler: %s); the in-hours update at %s raised %r' % (sp['universe'], fill_t, e), sp)
+        idx = days.index(sp['day'])
+        px = {'EQ:XXX': p + idx, 'EQ:YYY': p + 17.0 + idx}         # the open of that day in the FIRST source that has the asset
+        for rep in range(2):
+            held = {a: d['quantity'] for a, d in b.get_portfolio_as_dict('p').items()}
+            if prop == 'C04' and (held != dict(orders) or b.open_orders['p'].qsize() != 0):
+                raise Violation('C04', 'order-not-filled-in-full-once', 'orders %s at the in-hours update %s (universe given to the '
+                                'handler: %s): holdings %s, queue %d%s' % (orders, fill_t, sp['universe'], held, b.open_orders['p'].qsize(),
+                                                                         ' after one more update' if rep else ''), sp)
+            if rep == 0:
+                # the commission is charged on the consideration rounded to whole currency units (as the library documents)
+                wants = [F(cash0)]
+                for a, q in orders:
+                    cons = F(px[a]) * q
+                    wants = [w - cons - (F(sp['rates'][0]) + F(sp['rates'][1])) * abs(F(r))
+                             for w in wants for r in sorted(core.round_candidates(cons))]
+                got = b.get_portfolio_cash_balance('p')
+                want = min(wants, key=lambda w: abs(w - F(got)))
+                if prop == 'C05' and not close(got, want, abs(F(cash0))):
+                    raise Violation('C05', 'fill-price-through-real-handler', 'orders %s filled at %s through the real handler over '
+                                    '%d source(s): cash went from %r to %r, the first source\'s quotes %s and rates %s give %r'
+                                    % (orders, fill_t, sp['sources'], cash0, got, px, sp['rates'], float(want)), sp)
+                b.update(fill_t + pd.Timedelta(minutes=1) if fill_t.hour < 20 else fill_t)
+        acc.count('%s:fills_through_the_real_data_handler' % prop)
+        acc.count('%s:fills_through_the_real_data_handler/universe=%s' % (prop, sp['universe']))
+    finally:
+        shutil.rmtree(d1, ignore_errors=True)
+        shutil.rmtree(d2, ignore_errors=True)
+
+
 def aborted_update_script(rng):
     """An in-hours update that fills an order and then fails on an order whose asset has no price yet (the documented
     ValueError); the caller carries on. The NEXT fills must use the quotes of their own update (C05)."""
@@ -2520,6 +2612,13 @@ def shard_broker(spec, acc, prop, faults):
                 late_quote_case(sp, acc)
             except Violation as v:
                 acc.violation(v, {'late_quote': sp})
+    if prop in ('C04', 'C05'):
+        for i in range(max(3, spec['cases'] // 4)):
+            sp = real_handler_script(rng)
+            try:
+                real_handler_case(sp, acc, prop)
+            except Violation as v:
+                acc.violation(v, {'real_handler': sp, 'prop': prop})
     if prop == 'C05':
         for i in range(spec['cases'] * 2):
             sp = aborted_update_script(rng)
